@@ -108,7 +108,7 @@ func uniqStrings(s []string) []string {
 	return o
 }
 
-var vProfileC02 = vProfile{name: "c02", blockLoads: false, queueFull: 120, multiGPU: 15, optVariants: true, lateLoad: 60, pingCancel: 100}
+var vProfileC02 = vProfile{name: "c02", blockLoads: false, queueFull: 120, multiGPU: 15, optVariants: true, lateLoad: 60, pingCancel: 100, busyPingFail: 40}
 
 func TestVerifC02(t *testing.T) {
 	vRunSched(t, "C02", vProfileC02, 400, 40000,
